@@ -35,6 +35,10 @@ class FilterState:
     async def _do_put_script(self, cmd: PutScriptCommand) -> Response:
         max_len = self.config.max_filter_len
         if max_len is None or len(cmd.script_data) <= max_len:
+            try:
+                await self.filter_set.compiler.compile(cmd.script_data)
+            except SieveParseError as exc:
+                return Response(Condition.NO, text=str(exc))
             await self.filter_set.put(cmd.script_name, cmd.script_data)
             return Response(Condition.OK)
         else:
